@@ -82,6 +82,7 @@ type Exec struct {
 	exports map[string]map[string]model.Doc
 	// inCrashSettle: the op's post-state is being reconstructed after a crash
 	inCrashSettle bool
+	lastWant      string
 	// RecordObs: keep a backend-independent log of what each operation returned (E-DIFF)
 	RecordObs bool
 	Obs       []string
@@ -176,7 +177,11 @@ func (e *Exec) invoke(primary bool, f func() error) (err error) {
 				err = errCrashed
 				return
 			}
-			e.fail([]string{"C20"}, "C20/panic", fmt.Sprintf("panic: %v\n%s", r, trimStack(debug.Stack())), map[string]string{"panic": firstLine(fmt.Sprint(r))})
+			props := []string{"C20"}
+			if e.cur != nil {
+				props = append(props, opProps[e.cur.K]...)
+			}
+			e.fail(props, "C20/panic", fmt.Sprintf("panic: %v\n%s", r, trimStack(debug.Stack())), map[string]string{"panic": firstLine(fmt.Sprint(r))})
 			err = fmt.Errorf("panic: %v", r)
 		}
 		e.Ctl.ClearPlan()
@@ -355,6 +360,7 @@ func (e *Exec) obs(format string, args ...interface{}) {
 }
 
 func (e *Exec) judge(err error, want string, okProps []string, what string) outcome {
+	e.lastWant = want
 	if errors.Is(err, errCrashed) {
 		return outCrashed
 	}
@@ -1281,6 +1287,10 @@ func (e *Exec) settleCrash(op *Op, apply func()) {
 		e.fail([]string{"C05"}, "C05/reopen-error", fmt.Sprintf("reopen after crash failed: %v", err), nil)
 		return
 	}
+	if e.lastWant != "" {
+		// the operation was going to fail anyway: its post-state is its pre-state
+		apply = func() {}
+	}
 	pre := e.M.Clone()
 	// try "entirely absent"
 	e.compareAll("", nil, "crash")
@@ -1384,4 +1394,15 @@ func onlyTyping(want, got interface{}) bool {
 		return true
 	}
 	return val.Compare(want, got) == 0
+}
+
+// opProps: the properties whose statement promises a result for an operation
+// kind; a panic in such a call violates them as well as the no-panic property.
+var opProps = map[string][]string{
+	"CreateCollection": {"C13"}, "DropCollection": {"C13", "C03"}, "HasCollection": {"C13"}, "ListCollections": {"C13"},
+	"CreateIndex": {"C14"}, "DropIndex": {"C14"}, "HasIndex": {"C14"}, "ListIndexes": {"C14"},
+	"FindAll": {"C01"}, "Derived": {"C09"}, "FindById": {"C09"},
+	"Insert": {"C12"}, "InsertOne": {"C12"}, "Save": {"C12"}, "ReplaceById": {"C12"}, "UpdateById": {"C12"},
+	"Update": {"C03"}, "UpdateFunc": {"C03"}, "Delete": {"C03"},
+	"Export": {"C19"}, "Import": {"C19"},
 }
